@@ -120,9 +120,10 @@ def rule_spec_grammar(ctx, p, cfg, rid="A6"):
             r.require(got.get(k) == {ch}, "align:%s" % k, fn=f, detail="Alignment::%s chosen on consume(%r): %s" % (k, ch, sorted(got.get(k, []))))
 
 
-def run_cfg(ctx, p, cfg):
-    rule_spec_grammar(ctx, p, cfg, "A6")
-    with ctx.rule("A2", "boundary predicate", cfg) as r:
+
+def rule_boundary_predicate(ctx, p, cfg, rid="A2"):
+    """what the width writers count as the start of a character: every byte that is not a UTF-8 continuation byte"""
+    with ctx.rule(rid, "boundary predicate", cfg) as r:
         pred, cnt = helpers(p)
         e = pred.local_expr(0)
         ok, form = lead_byte_form(e)
@@ -139,6 +140,10 @@ def run_cfg(ctx, p, cfg):
                 okf = any(c.callee == pred.path for c in cf.calls()) and cf.local_expr(0)[0] == "call"
             okf = okf and deep_strip(flt[0][2][0])[0] == "call" and deep_strip(flt[0][2][0])[1].endswith("::iter") and deep_strip(deep_strip(flt[0][2][0])[2][0]) == ("param", 1)
         r.require(okc and okf, "counter-counts-lead-bytes", fn=cnt, detail="char_starts = buf.iter().filter(|b| is_char_boundary(b)).count(): %s" % show(ce, 5))
+
+def run_cfg(ctx, p, cfg):
+    rule_spec_grammar(ctx, p, cfg, "A6")
+    rule_boundary_predicate(ctx, p, cfg, "A2")
 
     with ctx.rule("A1", "character counting", cfg) as r:
         rule_char_counting(r, p)
